@@ -329,6 +329,28 @@ func (x *Engine) applyContract(fr *Frame, st *State, fs *FuncSpec, sig *types.Si
 	if fs.Assumed || fs.IsIface {
 		x.assumedC[key] = true
 	}
+	for _, c := range fs.Lets {
+		ev := &Eval{x: x, st: st, old: st, env: env, pkg: pkg}
+		lv := x.safeEval(ev, c)
+		lv.T = x.name("let_"+mangle(c.Label), ev.sortOf(lv), lv.T)
+		env[c.Label] = lv
+	}
+	for i, c := range fs.Requires {
+		if c.Kind == "objinv" {
+			x.objInvs[key+": "+c.Text] = true
+			continue
+		}
+		ev := &Eval{x: x, st: st, old: st, env: env, pkg: pkg}
+		g := x.safeEvalBool(ev, c)
+		lab := c.Label
+		if lab == "" {
+			lab = fmt.Sprint(i + 1)
+		}
+		if i == 0 {
+			x.ordinals["call:"+key]++
+		}
+		x.oblige(st, fmt.Sprintf("call[%s#%d].requires", shortKey(key), x.ordinals["call:"+key]), lab, g, c.Text+" (call at "+pos+")", pos)
+	}
 	if fs.Pure {
 		var recv Val
 		var rest []Val
@@ -351,24 +373,6 @@ func (x *Engine) applyContract(fr *Frame, st *State, fs *FuncSpec, sig *types.Si
 			x.assume(st, x.safeEvalBool(ev, c))
 		}
 		return r
-	}
-	for _, c := range fs.Lets {
-		ev := &Eval{x: x, st: st, old: st, env: env, pkg: pkg}
-		lv := x.safeEval(ev, c)
-		lv.T = x.name("let_"+mangle(c.Label), ev.sortOf(lv), lv.T)
-		env[c.Label] = lv
-	}
-	for i, c := range fs.Requires {
-		ev := &Eval{x: x, st: st, old: st, env: env, pkg: pkg}
-		g := x.safeEvalBool(ev, c)
-		lab := c.Label
-		if lab == "" {
-			lab = fmt.Sprint(i + 1)
-		}
-		if i == 0 {
-			x.ordinals["call:"+key]++
-		}
-		x.oblige(st, fmt.Sprintf("call[%s#%d].requires", shortKey(key), x.ordinals["call:"+key]), lab, g, c.Text+" (call at "+pos+")", pos)
 	}
 	pre := st.clone()
 	if !fs.HasMod {
